@@ -25,7 +25,7 @@ const (
 )
 
 type c16Op struct {
-	Op  string `json:"op"` // reg, rereg, regagain, unreg, feed, peergone, restart
+	Op  string `json:"op"` // reg, rereg, unregdup, regagain, unreg, feed, peergone, restart
 	X   int    `json:"x"`
 	Out int    `json:"out"`
 }
@@ -118,25 +118,25 @@ type vfEvent struct {
 }
 
 type c16Harness struct {
-	events   chan vfEvent // Start (blocked at its gate) and Close calls, in the order they happened
-	pushback []vfEvent
-	pendMu   sync.Mutex
-	pending  func()
-	c        *vk.Ctx
-	cs       *c16Case
-	m        *Manager
-	conv     []*vfConv // current instance per adapter index
-	model    []c16Model
-	blocked  chan *vfConv
-	closed   chan *vfConv
-	spare    int
-	fwd      int32 // statuses seen on the manager's out channel
-	stop     chan struct{}
-	trace    []string
-	released []int // Start calls released per adapter index
-	relAll   int
-	fresh    []int32 // per adapter: the next Start belongs to a fresh registration (see regagain)
-	avoidNoRetry int // adapter whose Starts must not be answered with "do not retry" during the current step (-1: none)
+	events       chan vfEvent // Start (blocked at its gate) and Close calls, in the order they happened
+	pushback     []vfEvent
+	pendMu       sync.Mutex
+	pending      func()
+	c            *vk.Ctx
+	cs           *c16Case
+	m            *Manager
+	conv         []*vfConv // current instance per adapter index
+	model        []c16Model
+	blocked      chan *vfConv
+	closed       chan *vfConv
+	spare        int
+	fwd          int32 // statuses seen on the manager's out channel
+	stop         chan struct{}
+	trace        []string
+	released     []int // Start calls released per adapter index
+	relAll       int
+	fresh        []int32 // per adapter: the next Start belongs to a fresh registration (see regagain)
+	avoidNoRetry int     // adapter whose Starts must not be answered with "do not retry" during the current step (-1: none)
 }
 
 func (h *c16Harness) logf(format string, a ...interface{}) {
@@ -494,6 +494,21 @@ func c16Run(c *vk.Ctx, cs c16Case) {
 			if atomic.LoadInt32(&old.starts) != sb || atomic.LoadInt32(&dup.starts) != 0 {
 				h.fail("c16.double-instance", "registering address %s twice started an adapter again", old.addr)
 			}
+		case "unregdup":
+			// another instance with the same address (discovery creates a fresh client object per announcement) is
+			// unregistered or reported as gone: the registered, started instance must not be affected
+			if !md.active {
+				continue
+			}
+			h.logf("%s", step)
+			old := h.conv[i]
+			dup := h.newConv(i)
+			dup.inst = old.inst + 200
+			cb, sb := atomic.LoadInt32(&old.closes), atomic.LoadInt32(&old.starts)
+			h.inHandler(fmt.Sprintf("Unregister(another instance of address %s)", old.addr), func() { m.Unregister(dup.as()) }, -1, 0)
+			if atomic.LoadInt32(&old.closes) != cb || atomic.LoadInt32(&old.starts) != sb || atomic.LoadInt32(&dup.starts) != 0 {
+				h.fail("c16.foreign-instance", "unregistering another instance with address %s closed or restarted the registered adapter", old.addr)
+			}
 		case "regagain":
 			// the address is registered again while the adapter waits for its retry (discovery does this on
 			// every beacon of a peer): the manager tries to start the known instance at once
@@ -653,7 +668,7 @@ func genC16(t *rapid.T) c16Case {
 		cs.Perm = append(cs.Perm, rapid.Bool().Draw(t, "perm"))
 		cs.Sender = append(cs.Sender, rapid.Bool().Draw(t, "sender"))
 	}
-	ops := []string{"reg", "reg", "feed", "feed", "feed", "unreg", "rereg", "regagain", "regagain", "peergone", "restart"}
+	ops := []string{"reg", "reg", "feed", "feed", "feed", "unreg", "rereg", "unregdup", "regagain", "regagain", "peergone", "restart"}
 	cs.Ops = rapid.SliceOfN(rapid.Custom(func(t *rapid.T) c16Op {
 		return c16Op{Op: rapid.SampledFrom(ops).Draw(t, "op"), X: rapid.IntRange(0, n-1).Draw(t, "x"),
 			Out: rapid.SampledFrom([]int{outOK, outOK, outRetry, outRetry, outRetry, outNoRetry}).Draw(t, "out")}
@@ -665,6 +680,115 @@ func genC16(t *rapid.T) c16Case {
 func TestVerifC16Traces(t *testing.T) {
 	log.SetOutput(io.Discard)
 	u := vk.Unit{Property: "C16", Name: "c16.traces", Quick: 2400, Thorough: 20000,
-		Rule: "traces of up to 14 steps over {register, register-again while started, register-again while waiting for a retry (scripted outcome), unregister, retry tick with scripted outcome (succeeds / fails-retry / fails-no-retry), peer-disappeared, restart} for 1..3 adapters (senders/receivers, permanent or not) and retry budget 0..3, closed by Manager.Close; the real Manager.handler runs with a 4 ms retry interval and every adapter Start blocks at a gate until the harness supplies the scripted outcome; oracle = reference state machine fed by the observed Start/Close calls: legal starts only, Sender()/Receiver() == model's active set after every step, waiting adapters get their next Start, exhausted ones are forgotten, one Close per successful Start, Close returns; non-trivial = trace with >= 1 failing start; distinct by case hash"}
+		Rule: "traces of up to 14 steps over {register, register-again while started, register-again while waiting for a retry (scripted outcome), unregister, unregister of another instance with the same address, retry tick with scripted outcome (succeeds / fails-retry / fails-no-retry), peer-disappeared, restart} for 1..3 adapters (senders/receivers, permanent or not) and retry budget 0..3, closed by Manager.Close; the real Manager.handler runs with a 4 ms retry interval and every adapter Start blocks at a gate until the harness supplies the scripted outcome; oracle = reference state machine fed by the observed Start/Close calls: legal starts only, Sender()/Receiver() == model's active set after every step, waiting adapters get their next Start, exhausted ones are forgotten, one Close per successful Start, Close returns; non-trivial = trace with >= 1 failing start; distinct by case hash"}
 	vk.Check(t, u, genC16, c16Run)
+}
+
+// ---- the Manager as NewManager builds it (its own channel sizes and defaults) ----------------------------
+
+type c16NMCase struct {
+	Adapters int  `json:"adapters"`
+	Burst    int  `json:"burst"`     // statuses each adapter reports back to back (the first is PeerDisappeared)
+	SlowRead bool `json:"slow_read"` // the consumer of Manager.Channel() is busy for a moment
+}
+
+// vfAutoConv starts at once, counts, and reports what the harness tells it to.
+type vfAutoConv struct {
+	addr   string
+	eid    bpv7.EndpointID
+	status chan ConvergenceStatus
+	starts int32
+	closes int32
+}
+
+func (v *vfAutoConv) Start() (error, bool)               { atomic.AddInt32(&v.starts, 1); return nil, false }
+func (v *vfAutoConv) Close() error                       { atomic.AddInt32(&v.closes, 1); return nil }
+func (v *vfAutoConv) Channel() chan ConvergenceStatus    { return v.status }
+func (v *vfAutoConv) Address() string                    { return v.addr }
+func (v *vfAutoConv) IsPermanent() bool                  { return true }
+func (v *vfAutoConv) Send(bpv7.Bundle) error             { return nil }
+func (v *vfAutoConv) GetPeerEndpointID() bpv7.EndpointID { return v.eid }
+func (v *vfAutoConv) String() string                     { return "vfAutoConv(" + v.addr + ")" }
+
+func TestVerifC16NewManager(t *testing.T) {
+	log.SetOutput(io.Discard)
+	u := vk.Unit{Property: "C16", Name: "c16.newmanager", Quick: 40, Thorough: 1500,
+		Rule: "the Manager exactly as NewManager() builds it (channel sizes, defaults): 1..24 permanent adapters start at once; each reports 1..4 statuses back to back, the first one a peer loss (as MTCP does on repeated send failures, TCPCLv4 with a received bundle followed by a peer loss), while the consumer of Manager.Channel() is prompt or busy for a moment; then Close. Oracle: nothing deadlocks (every report is taken within 20 s, Close returns within 20 s), every adapter was restarted after its peer loss (a second successful Start), and at the end every successful Start is matched by exactly one Close; non-trivial = burst >= 2; distinct by parameters"}
+	vk.Check(t, u, func(t *rapid.T) c16NMCase {
+		return c16NMCase{Adapters: rapid.IntRange(1, 24).Draw(t, "adapters"), Burst: rapid.IntRange(1, 4).Draw(t, "burst"), SlowRead: rapid.Bool().Draw(t, "slow")}
+	}, func(c *vk.Ctx, cs c16NMCase) {
+		if cs.Burst >= 2 {
+			c.NonTrivial()
+		}
+		m := NewManager()
+		stopRead := make(chan struct{})
+		readDone := make(chan struct{})
+		go func() {
+			defer close(readDone)
+			for {
+				select {
+				case <-m.Channel():
+					if cs.SlowRead {
+						time.Sleep(200 * time.Microsecond)
+					}
+				case <-stopRead:
+					return
+				}
+			}
+		}()
+		var convs []*vfAutoConv
+		for i := 0; i < cs.Adapters; i++ {
+			v := &vfAutoConv{addr: fmt.Sprintf("vf://auto-%d", i), eid: bpv7.MustNewEndpointID(fmt.Sprintf("dtn://auto-%d/", i)), status: make(chan ConvergenceStatus)}
+			convs = append(convs, v)
+			m.Register(v)
+		}
+		var wg sync.WaitGroup
+		stuck := int32(0)
+		for _, v := range convs {
+			wg.Add(1)
+			go func(v *vfAutoConv) {
+				defer wg.Done()
+				for k := 0; k < cs.Burst; k++ {
+					st := NewConvergencePeerDisappeared(v, v.eid)
+					if k > 0 {
+						st = NewConvergencePeerAppeared(v, v.eid)
+					}
+					select {
+					case v.status <- st:
+					case <-time.After(20 * time.Second):
+						atomic.AddInt32(&stuck, 1)
+						return
+					}
+				}
+			}(v)
+		}
+		wg.Wait()
+		if n := atomic.LoadInt32(&stuck); n > 0 {
+			c.Failf("c16.deadlock", "%d of %d adapters could not hand their status report to the manager within 20 s (burst of %d reports each)", n, cs.Adapters, cs.Burst)
+		}
+		// every adapter is restarted after its peer loss
+		deadline := time.Now().Add(20 * time.Second)
+		for _, v := range convs {
+			for atomic.LoadInt32(&v.starts) < 2 && time.Now().Before(deadline) {
+				time.Sleep(200 * time.Microsecond)
+			}
+			if atomic.LoadInt32(&v.starts) < 2 {
+				c.Failf("c16.no-restart", "adapter %s reported the loss of its peer but was not started again within 20 s (starts: %d, closes: %d)", v.addr, v.starts, v.closes)
+			}
+		}
+		closed := make(chan struct{})
+		go func() { _ = m.Close(); close(closed) }()
+		select {
+		case <-closed:
+		case <-time.After(20 * time.Second):
+			c.Failf("c16.deadlock", "Manager.Close does not return within 20 s after %d adapters reported %d statuses each", cs.Adapters, cs.Burst)
+		}
+		close(stopRead)
+		<-readDone
+		for _, v := range convs {
+			if s, cl := atomic.LoadInt32(&v.starts), atomic.LoadInt32(&v.closes); s != cl {
+				c.Failf("c16.close-balance", "adapter %s: %d successful starts, %d closes after Manager.Close", v.addr, s, cl)
+			}
+		}
+	})
 }
